@@ -141,11 +141,32 @@ fn splitmix(mut z: u64) -> u64 {
 /// asserted values are a fixed function of the description (no RNG): residue of a 128-bit mix
 pub fn value(fp: Fp, d: &ADesc, idx: usize) -> u128 {
     let seed = (d.kind as u64) << 56 ^ (d.col as u64) << 48 ^ (d.first as u64) << 32 ^ (d.stride as u64) << 16 ^ d.nvals as u64;
+    // value lists with structure (a representation chosen from the values must still reproduce them):
+    // all equal, equal in consecutive pairs, alternating, all equal but the last; otherwise unrelated values
+    let idx = if d.kind == Kind::Sequence && d.nvals >= 2 {
+        match splitmix(seed) % 7 {
+            1 => 0,
+            2 => idx & !1,
+            3 => idx & 1,
+            4 => {
+                if idx + 1 == d.nvals {
+                    idx
+                } else {
+                    0
+                }
+            },
+            _ => idx,
+        }
+    } else {
+        idx
+    };
     let lo = splitmix(seed ^ splitmix(idx as u64 + 1));
     let hi = splitmix(lo ^ seed.rotate_left(29));
     let v = ((hi as u128) << 64 | lo as u128) % fp.p;
     // make sure 0, 1 and p-1 appear as asserted values too
-    match (seed.wrapping_add(idx as u64)) % 29 {
+    // (kept off the structured lists, whose point is which entries are equal)
+    let structured = d.kind == Kind::Sequence && d.nvals >= 2 && (1..=4).contains(&(splitmix(seed) % 7));
+    match if structured { 28 } else { (seed.wrapping_add(idx as u64)) % 29 } {
         0 => 0,
         1 => 1,
         2 => fp.p - 1,
